@@ -222,6 +222,9 @@ class Spec:
     assumptions = ["aborts are group signals (what a terminal delivers); SIGKILL of a single lock holder belongs to C10",
                    "event order on the FIFO reflects causality (each script writes its own events synchronously)"]
 
+    def accepts(self, case):
+        return "invs" in case
+
     def cases(self, tier):
         return 400 if tier == "quick" else 4000
 
@@ -233,3 +236,59 @@ class Spec:
 
 
 SPEC = Spec()
+
+
+def spec_for(case):
+    from . import c06stop
+    return c06stop if "scn" in case else SPEC
+
+
+def run_check(tier, seed):
+    """Scheduled multi-invocation scenarios (above) + the stop-point tier (every state-changing call of one invocation
+    is a point at which it is frozen while a second invocation runs)."""
+    import time
+    from .. import engine
+    from . import c06stop
+    t0 = time.time()
+    code, ev = engine.run_property("rv.props.c06", tier, seed)
+    problems, stats, samples = c06stop.explore(tier, seed)
+    cov = ev["coverage"]
+    cov["stop_points"] = dict(stats, exhaustive=(tier != "quick"), samples=samples,
+                              rule="4 small projects x log on/off x fresh/rebuild (4 of them in quick): invocation P1 under "
+                                   "the LD_PRELOAD shim is SIGSTOPped immediately before its n-th state-changing libc "
+                                   "call, for every n (every 3rd in quick); a second `redo-ifchange` of the same targets "
+                                   "runs meanwhile; then P1 continues. A target whose script had exited successfully "
+                                   "before P2 started must not be executed by P2; both exit 0; contents from-scratch. "
+                                   "Non-trivial = the stop really happened.")
+    cov["evaluations"] += stats["runs"]
+    cov["distinct_nontrivial"] += stats["stopped"]
+    cov["inconclusive_cases"] += stats["inconclusive"]
+    known = engine.load_known()
+    seen = set()
+    for res in problems:
+        p = res["problem"]
+        if p == "inconclusive":
+            continue
+        prop = p.get("prop", "C06")
+        if prop != "C06":
+            key = prop + "/" + p["clause"]
+            cov["other_property_symptoms_seen"][key] = cov["other_property_symptoms_seen"].get(key, 0) + 1
+            continue
+        k = engine.match_known("C06", p["sig"], known)
+        if k is not None:
+            cov["known_finding_hits"][k["id"]] = cov["known_finding_hits"].get(k["id"], 0) + 1
+            print("KNOWN-FINDING: property=C06 %s (%s)" % (k["what"], k["id"]))
+            continue
+        key = (res["name"], p["clause"])
+        if key in seen:
+            continue
+        seen.add(key)
+        scn = [x for x in c06stop.scenarios(tier, seed) if x["name"] == res["name"]][0]
+        v = {"property": "C06", "clause": "stop-point/" + p["clause"], "detail": p["detail"], "sig": p["sig"], "step": 0}
+        path = engine.write_replay("C06", {"scn": scn, "n": res["n"]}, v)
+        print("VIOLATION property=C06 replay=%s" % path)
+        print("  clause=%s sig=%s" % (v["clause"], p["sig"]))
+        ev["violations"] += 1
+        code = 1
+    ev["wall_s"] = round(time.time() - t0, 2)
+    return code, ev
